@@ -489,7 +489,7 @@ class Parser(object):
                 if cf == 1:
                     target.assigned_to = source.assigned_to  # Direct substitution is possible
                     if target.cmeta_id is not None:  # In case annotation is on target instead of source
-                        self.model.transfer_cmeta_id(source=target, target=source)
+                        self.model.transfer_cmeta_id(source=target, target=source.assigned_to)
                 else:
                     cf_quant = self.model.create_quantity(cf, target.units / source.units)  # conversion factor quant
                     self.model.add_equation(sympy.Eq(target, source.assigned_to * cf_quant))  # Add connecting equation
